@@ -585,9 +585,44 @@ func ruleSeedDomain(c *Ctx) {
 		"ComputeSyncCommitteeIndices": "DOMAIN_SYNC_COMMITTEE",
 	}
 	found := map[string]bool{}
+	// an unexported function that asks for the seed does so on behalf of the functions of its package that call it
+	callersOf := map[*types.Func][]*ast.FuncDecl{}
 	c.P.funcDecls(func(pk *packages.Package, fd *ast.FuncDecl) {
-		info := pk.TypesInfo
+		if fd.Body == nil {
+			return
+		}
 		ast.Inspect(fd.Body, func(n ast.Node) bool {
+			if call, ok := n.(*ast.CallExpr); ok {
+				if f := calleeFunc(pk.TypesInfo, call); f != nil && !f.Exported() && f.Pkg() == pk.Types {
+					callersOf[f] = append(callersOf[f], fd)
+				}
+			}
+			return true
+		})
+	})
+	c.P.funcDecls(func(pk *packages.Package, fd0 *ast.FuncDecl) {
+		info := pk.TypesInfo
+		if fd0.Body == nil {
+			return
+		}
+		fd := fd0
+		if _, known := want[fd0.Name.Name]; !known {
+			if self, ok := info.Defs[fd0.Name].(*types.Func); ok && !self.Exported() {
+				for _, c1 := range callersOf[self] {
+					if _, ok := want[c1.Name.Name]; ok {
+						fd = c1
+					}
+					if s1, ok := info.Defs[c1.Name].(*types.Func); ok && !s1.Exported() {
+						for _, c2 := range callersOf[s1] {
+							if _, ok := want[c2.Name.Name]; ok {
+								fd = c2
+							}
+						}
+					}
+				}
+			}
+		}
+		ast.Inspect(fd0.Body, func(n ast.Node) bool {
 			call, ok := n.(*ast.CallExpr)
 			if !ok {
 				return true
